@@ -32,7 +32,6 @@ the model and with each other.
 """
 import hashlib
 import itertools
-import math
 
 import numpy as np
 
@@ -574,10 +573,15 @@ def run(ctx: Ctx) -> None:
                     h2 = list(d.values())
                     sig = (f"{get_config(name).cls.__name__}|{op[0]}|"
                            "equal-key states differ on the next output")
+                    same = list(h2[0]) == list(h2[1])
                     ctx.violation(sig, f"{describe(name, h2[1])}: the last "
                                   f"operation {opname(op)} is observed "
-                                  f"differently than after {hname(h2[0])} "
-                                  "(same mode and recorded evaluations)",
+                                  "differently " + (
+                                      "on two fresh objects driven through "
+                                      "this same history (not reproducible)"
+                                      if same else
+                                      f"than after {hname(h2[0])} (same "
+                                      "mode and recorded evaluations)"),
                                   {"config": list(name),
                                    "history": [list(o) for o in h2[1]]})
             nh = sum(o["hist"] for o in mine)
@@ -633,7 +637,7 @@ def run(ctx: Ctx) -> None:
         + ("every history replayed on a fresh object"
            if ctx.quick else "BFS over canonical keys (mode, initialize "
            "patched, recorded raw evaluations), every (key, operation) "
-           "executed by replay from up to two different histories")
+           "executed by replay from up to three different histories")
         + "; non-trivial = distinct observations (returned value / returned "
         "data / recorded data after the operation) per configuration")
     cfg = get_config(configs[ctx.seed % len(configs)])
